@@ -64,9 +64,11 @@ def directed():
             {"op": "buffer", "seid": 1, "pdr": 1, "action": 4, "pkt": "cc01"},
             {"op": "mod", "seid": 1, "ufars": [{"id": 1, "action": 2, "id_last": True, "ohc": {"teid": 300, "gnb": 1}}]}]]
     burst = [{"op": "est", "cfars": [{"id": 1, "action": 4, "ohc": {"teid": 5, "gnb": 0}}], "cqers": [], "cpdrs": [{"id": 1, "far": 1, "qers": []}]}]
-    burst += [{"op": "buffer", "seid": 1, "pdr": 1, "action": 4, "pkt": "%06x" % (0x900000 + k)} for k in range(515)]
-    burst += [{"op": "mod", "seid": 1, "ufars": [{"id": 1, "action": 2}]}]
-    out.append(burst)
+    for n in (511, 515):
+        out.append(burst + [{"op": "burst", "seid": 1, "pdr": 1, "action": 4, "pkt": "90", "count": n},
+                            {"op": "mod", "seid": 1, "ufars": [{"id": 1, "action": 2}]},
+                            {"op": "burst", "seid": 1, "pdr": 1, "action": 4, "pkt": "91", "count": 3},
+                            {"op": "mod", "seid": 1, "ufars": [{"id": 1, "action": 1}]}])
     return out
 
 
@@ -100,6 +102,9 @@ def c_step(st):
                                          clist([c_upd(u) for u in st.get("ufars", [])]))
     if st["op"] == "del":
         return "RDel" if st["seid"] == 1 else "(RBuffer 0 0 [])"
+    if st["op"] == "burst":
+        pk = [bytes.fromhex(st["pkt"]) + k.to_bytes(3, "big") for k in range(st["count"])]
+        return "(RBurst %d %d %s)" % (st["pdr"], st["action"], clist([clist([str(b) for b in p]) for p in pk]))
     if st["op"] == "buffer":
         if st["seid"] != 1:
             return "(RBuffer 0 0 [])"          # a notification for a session that does not exist: no effect
@@ -130,12 +135,20 @@ Definition nonempty (q : list (N * list pkt)) := filter (fun x => match snd x wi
 Definition queues_agree (m : list (N * list pkt)) (i : list (N * list (list N))) : bool :=
   Nat.eqb (List.length (nonempty m)) (List.length i)
   && forallb (fun x => match alook (fst x) m with Some q => lleqb q (snd x) | None => false end) i.
-Definition step_agrees (s : rstate) (st : rstep) (o : obs) : bool * rstate :=
+Inductive xstep := XStep (st : rstep) | RBurst (pdr action : N) (ps : list pkt).
+Coercion XStep : rstep >-> xstep.
+Definition xrun (s : rstate) (x : xstep) : rstate * list emission * list N :=
+  match x with
+  | XStep st => rstep_run s st
+  | RBurst pdr action ps =>
+    fold_left (fun acc p => let '(s0, es, d) := acc in let '(s1, d1) := buffer_in s0 pdr action p in (s1, es, d ++ d1)) ps (s, [], [])
+  end.
+Definition step_agrees (s : rstate) (st : xstep) (o : obs) : bool * rstate :=
   match o with (g0, g1, dl, qs, fault) =>
-    let '(s', es, d) := rstep_run s st in
+    let '(s', es, d) := xrun s st in
     (negb fault && lleqb (to_peer es 0) g0 && lleqb (to_peer es 1) g1 && leqb d dl && queues_agree (r_q s') qs, s')
   end.
-Fixpoint run_agrees (s : rstate) (l : list (rstep * obs)) (i : N) : option N :=
+Fixpoint run_agrees (s : rstate) (l : list (xstep * obs)) (i : N) : option N :=
   match l with
   | [] => None
   | (st, o) :: r => let '(ok, s') := step_agrees s st o in if ok then run_agrees s' r (i + 1) else Some i
@@ -143,11 +156,11 @@ Fixpoint run_agrees (s : rstate) (l : list (rstep * obs)) (i : N) : option N :=
 (* monitor on the implementation's datagrams alone: each is a well-formed G-PDU whose payload was handed up for buffering
    earlier in this history and has not been emitted before; queues within capacity *)
 Definition payload_of (bs : list N) : option (list N) := option_map g_payload (ref_parse bs).
-Fixpoint mon (l : list (rstep * obs)) (pushed emitted : list (list N)) (i : N) : option N :=
+Fixpoint mon (l : list (xstep * obs)) (pushed emitted : list (list N)) (i : N) : option N :=
   match l with
   | [] => None
   | (st, (g0, g1, dl, qs, fault)) :: r =>
-    let pushed' := match st with RBuffer _ _ p => p :: pushed | _ => pushed end in
+    let pushed' := match st with XStep (RBuffer _ _ p) => p :: pushed | RBurst _ _ ps => ps ++ pushed | _ => pushed end in
     let ps := map payload_of (g0 ++ g1) in
     let fresh := fix fresh (xs : list (option (list N))) (seen : list (list N)) : bool :=
                    match xs with
@@ -175,9 +188,9 @@ def run(ctx, harness, n):
     impl = res["cases"]
     items = []
     for c, o in zip(cases, impl):
-        pairs = ["(%s, %s)" % (c_step(st), c_obs(ob)) for st, ob in zip(c, o)]
+        pairs = ["((%s : xstep), %s)" % (c_step(st), c_obs(ob)) for st, ob in zip(c, o)]
         items.append(clist(pairs))
-    body = PRELUDE + "Definition cases : list (list (rstep * obs)) := \n" + clist(items) + ".\n"
+    body = PRELUDE + "Definition cases : list (list (xstep * obs)) := \n" + clist(items) + ".\n"
     body += "Definition mism := Eval vm_compute in idx (fun c => run_agrees r_init c 0) cases 0.\n"
     body += "Definition monf := Eval vm_compute in idx (fun c => mon c [] [] 0) cases 0.\n"
     out, clog = common.run_coq_cases(ctx, "cases_release", body, REQUIRES, ["mism", "monf"])
